@@ -831,9 +831,8 @@ Proof.
   intros HP Hi. unfold downgrade.
   destruct (reconnect_body_N ok (set_proto 3 s)) as (A1 & A2).
   { eapply Pre_frame; [| | | | | |exact HP]; reflexivity. }
-  destruct (reconnect_body c nested ok (set_proto 3 s)) as [s1 [rc|]]; cbn [fst] in *.
-  - apply after_read_any; [exact A1|ssimpl; congruence].
-  - cbn [after_read fst]. split; [exact A1|ssimpl; congruence].
+  destruct (reconnect_body c nested ok (set_proto 3 s)) as [s1 [rc|]]; cbn [fst] in *;
+    (apply after_read_any; [exact A1|ssimpl; congruence]).
 Qed.
 
 Lemma loop_read_N i s : Pre true s -> incb s = false ->
